@@ -362,7 +362,9 @@ public:
                   RealScalar tol = 1e-10, SortRule sorting = SortRule::LargestAlge)
     {
         // The m-step Lanczos factorization
-        m_fac.factorize_from(1, m_ncv, m_nmatop);
+        // After init() the factorization has dimension 1; after an earlier compute()
+        // it is already complete and is continued from where it stopped
+        m_fac.factorize_from((std::max)(Index(1), m_fac.subspace_dim()), m_ncv, m_nmatop);
         retrieve_ritzpair(selection);
         SPECTRA_VERIF_EVENT("eigs.start", this, m_ncv, m_nmatop);
         // Restarting
